@@ -121,7 +121,7 @@ def hname(h):
     return f"h{h}"
 
 
-def build_job(spec, funcs=None):
+def build_job(spec, funcs=None, serdes=None):
     from cascade.low.core import DatasetId, Environment, JobInstance, Task2TaskEdge, TaskDefinition, TaskInstance, Worker, WorkerId
     tasks, edges = {}, []
     for k, t in enumerate(spec["tasks"]):
@@ -136,6 +136,9 @@ def build_job(spec, funcs=None):
             else:
                 edges.append(Task2TaskEdge(source=dsid(spec, src, o), sink_task=tname(k), sink_input_kw=f"k{i}", sink_input_ps=None))
     job = JobInstance(tasks=tasks, edges=edges, ext_outputs=[dsid(spec, k, o) for k, o in spec["ext"]])
+    if serdes:
+        for t, pair in serdes.items():
+            job.serdes[t] = pair
     wids = []
     per_host = {}
     for w in spec["workers"]:
@@ -161,6 +164,9 @@ def wrap_val(v, nd):
 
 def norm_value(v):
     import numpy as np
+    import c01values
+    if isinstance(v, c01values.Box):
+        return (type(v).__name__, norm_value(v.payload))
     if isinstance(v, np.ndarray):
         return tuple(norm_value(x) for x in v.tolist())
     if isinstance(v, (tuple, list)):
@@ -227,7 +233,8 @@ class FakeCluster:
         from cascade.low.core import WorkerId
         import cloudpickle
         if isinstance(ev, DatasetTransmitPayload):
-            v = cloudpickle.loads(ev.value)
+            # bytes written by a custom serde of the job are certainly not Python's None
+            v = cloudpickle.loads(ev.value) if ev.header.deser_fun == "cloudpickle.loads" else ev.value
             return ("pay", self.ds_id(ev.header.ds), None if v is None else (v[1] if isinstance(v, tuple) and v and v[0] == "VAL" else self.ds_id(ev.header.ds)))
         if isinstance(ev.origin, WorkerId):
             return ("pub", self.widx[ev.origin], self.ds_id(ev.ds))
@@ -392,9 +399,14 @@ class FakeCluster:
                 self.problem("fetch-source-lost-dataset", f"fetch {d} from {src} found nothing")
                 raise Deadlock("fetch failure")
             import cloudpickle
-            val = self.values.get((src, self.key[d])) if self.executor else (None if got in self.none_ds else wrap_val(("VAL", got), (got[0] + got[1] + self.salt) % 2 == 0))
-            hdr = DatasetTransmitPayloadHeader(confirm_address="x", confirm_idx=0, ds=self.ds_obj(d), deser_fun="cloudpickle.loads")
-            self.pool.append(DatasetTransmitPayload(header=hdr, value=cloudpickle.dumps(val)))
+            if self.executor:
+                # what the worker wrote to shared memory: the bytes and the decoding function real serde.ser_output chose
+                raw, deser_fun = self.values.get((src, self.key[d]))
+            else:
+                val = None if got in self.none_ds else wrap_val(("VAL", got), (got[0] + got[1] + self.salt) % 2 == 0)
+                raw, deser_fun = cloudpickle.dumps(val), "cloudpickle.loads"
+            hdr = DatasetTransmitPayloadHeader(confirm_address="x", confirm_idx=0, ds=self.ds_obj(d), deser_fun=deser_fun)
+            self.pool.append(DatasetTransmitPayload(header=hdr, value=raw))
             env.append(("fetch", x))
         elif kind == "purge":
             h, d = x = self.purges.pop(st[1])
@@ -448,14 +460,14 @@ def _alarm(signum, frame):
     raise Spin("controller loop made no Bridge call for 5 s (busy spin)")
 
 
-def run_case(spec, seed, mode, executor=None, funcs=None, rerun=True):
+def run_case(spec, seed, mode, executor=None, funcs=None, rerun=True, serdes=None):
     """Runs the REAL controller loop on the fake cluster.  Returns dict with rounds, outcome,
     problems (oracle), outputs."""
     import random
     from cascade.controller.impl import run
     from cascade.scheduler.graph import precompute
     rng = random.Random(seed)
-    job, env, wids = build_job(spec, funcs)
+    job, env, wids = build_job(spec, funcs, serdes)
     cluster = FakeCluster(spec, job, env, wids, rng, mode, executor)
     cluster.salt = seed
     outcome, detail, state = "ok", "", None
